@@ -57,7 +57,7 @@ def jobs_misc(rng, thorough):
 
 
 def run(ctx: core.Ctx):
-    ctx.lean_stage(extra_props=("C20x",))
+    ctx.lean_stage(extra_props=("C20x", "Tie"))
     b2check.run_b2(ctx, jobs, ["C20"], label="log scenarios", log_visible=True)
     b2check.run_b2(ctx, jobs_preempt, ["C20"], label="log scenarios with preemption (monitor only for the log)", accept_log_size=0)
     b2check.run_b2(ctx, jobs_stall, ["C20"], label="log scenarios with stalled threads (monitor only)", accept=False)
